@@ -1375,6 +1375,36 @@ pub fn c15(ctx: &Ctx, rep: &mut Report) {
         o.classes.push("meaningful-host-verbatim");
         o
     });
+    // a bind request on the flow id of an EARLIER stream of the requester that the requester finished and dropped (its slot is gone, no
+    // Reset was sent) while the responder's application still holds its half-closed end: ids are chosen from the requester's own
+    // table only, the responder must show the request to its application and the answer must be the application's
+    ctx.enumerate(rep, "id-of-a-half-closed-stream", 2 * 2 * 3, 12, |i| {
+        let side = (i % 2) as usize;
+        let dgram = (i / 2) % 2 == 1;
+        let answer = [BindAnswer::Accept, BindAnswer::Reject, BindAnswer::DropIt][(i / 4) as usize % 3].clone();
+        let mut o = OptsSpec::default();
+        o.bind_buf = 4;
+        let mut rng = [vec![], vec![]];
+        rng[side] = vec![9, 9, 10];
+        let old = StreamSpec { side, port: 7, pad: vec![], delay: 0, park: None, cancel: None, ends: [EndScript { w: vec![WOp::Write(2), WOp::Shutdown, WOp::Drop], r: vec![] }, EndScript { w: vec![WOp::Park(9)], r: vec![ROp::ToEof(16)] }] };
+        let bp = BindPolicy { answers: vec![answer, BindAnswer::Accept], batch: 1, order: vec![], enabled: true, ping_first: false };
+        Case { opts: [o.clone(), o], rng, streams: vec![old], binds: vec![BindSpec { side, dgram, host: b"again".to_vec(), port: 99, delay: 150 }, BindSpec { side, dgram: !dgram, host: b"next".to_vec(), port: 98, delay: 200 }], bind_policy: [bp.clone(), bp], ..Case::default() }
+    }, |c| {
+        let run = run_case(c);
+        // the family is only meaningful if the bind request did reuse the stream's id
+        let stream_id = run.events.iter().find_map(|e| if let Ev::Sent { msg: WMsg::Frame(RFrame::Connect { id, .. }), .. } = &e.ev { Some(*id) } else { None });
+        let bind_ids: Vec<u32> = run.events.iter().filter_map(|e| if let Ev::Sent { msg: WMsg::Frame(RFrame::Bind { id, .. }), .. } = &e.ev { Some(*id) } else { None }).collect();
+        let mut o = run_c15(c);
+        if matches!(o.verdict, vf_common::Verdict::Pass) {
+            if stream_id.is_some() && bind_ids.first() == stream_id.as_ref() {
+                o.nontrivial = true;
+                o.classes.push("bind-on-the-id-of-a-half-closed-stream");
+            } else {
+                o.classes.push("id-not-reused");
+            }
+        }
+        o
+    });
     // a harness-driven peer: other well-formed frames on the id of a pending bind request (a late credit frame of an earlier stream
     // with that id, a stray Push or Connect) arrive before the peer's actual answer; only the answer - Finish = accepted, Reset =
     // refused - decides the request, and other requests are untouched
